@@ -1,4 +1,5 @@
 import St4sd.Model.Validate
+import St4sd.Lemmas.C11Expand
 import St4sd.Gen.C11
 /-!
 # C11 — A workflow that loads is structurally executable; a broken one is rejected
@@ -199,17 +200,22 @@ private theorem dupErrors_nil (l : List Id) (h : dupErrors l = []) : l.Nodup := 
     rw [if_pos this] at h1
     cases h1
 
-private theorem validate_nil {tbl sch} {d : Doc} (h : validate tbl sch d = []) :
-    dupErrors (ids d) = [] ∧ (∀ c ∈ d.comps, compErrors tbl sch d c = []) ∧ acyclicB d = true := by
+private theorem validate_nil' {tbl sch} {d : Doc} (h : validate tbl sch d = []) :
+    (dupErrors (ids d) = [] ∧ (∀ c ∈ d.comps, compErrors tbl sch d c = []) ∧ acyclicB d = true) ∧
+    replErrors d = [] ∧ dupErrorsExpanded (ids (expandDoc d)) = [] := by
   unfold validate at h
-  rw [List.append_eq_nil_iff, List.append_eq_nil_iff] at h
-  obtain ⟨⟨h1, h2⟩, h3⟩ := h
-  refine ⟨h1, fun c hc => ?_, ?_⟩
+  rw [List.append_eq_nil_iff, List.append_eq_nil_iff, List.append_eq_nil_iff, List.append_eq_nil_iff] at h
+  obtain ⟨⟨⟨⟨h1, h2⟩, h3⟩, h4⟩, h5⟩ := h
+  refine ⟨⟨h1, fun c hc => ?_, ?_⟩, h4, h5⟩
   · rw [List.flatMap_eq_nil_iff] at h2
     exact h2 c hc
   · cases hb : acyclicB d with
     | true => rfl
     | false => rw [hb] at h3; cases h3
+
+private theorem validate_nil {tbl sch} {d : Doc} (h : validate tbl sch d = []) :
+    dupErrors (ids d) = [] ∧ (∀ c ∈ d.comps, compErrors tbl sch d c = []) ∧ acyclicB d = true :=
+  (validate_nil' h).1
 
 private theorem compErrors_nil {tbl sch} {d : Doc} {c : Comp} (h : compErrors tbl sch d c = []) :
     optErrors tbl sch c.opts = [] ∧ (∀ r ∈ c.refs, refResolves d r = true) ∧
@@ -278,6 +284,156 @@ theorem undefinedVar_rejected (tbl sch) (d : Doc) (hf : undefinedVar d) : valida
   intro h
   obtain ⟨c, hc, v, hv, hn⟩ := hf
   exact hn ((compErrors_nil ((validate_nil h).2.1 c hc)).2.2.2 v hv)
+
+/-! ## Replication: the expanded graph of an accepted workflow -/
+
+private theorem dupErrorsExpanded_nil (l : List Id) (h : dupErrorsExpanded l = []) : l.Nodup := by
+  induction l with
+  | nil => exact List.nodup_nil
+  | cons i rest ih =>
+    unfold dupErrorsExpanded at h
+    rw [List.append_eq_nil_iff] at h
+    obtain ⟨h1, h2⟩ := h
+    refine List.nodup_cons.mpr ⟨fun hm => ?_, ih h2⟩
+    have : rest.contains i = true := by simpa using hm
+    rw [if_pos this] at h1
+    cases h1
+
+private theorem replErrors_nil {d : Doc} (h : replErrors d = []) : ∀ c ∈ d.comps, replOk d c = true := by
+  intro c hc
+  unfold replErrors at h
+  have := List.map_eq_nil_iff.mp h
+  rw [List.filter_eq_nil_iff] at this
+  simpa using this c hc
+
+/-- the fault classes of the property text on the EXPANDED graph -/
+def cyclicExpanded (d : Doc) : Prop := ∃ v, Reach (edges (expandDoc d)) v v
+def duplicateExpanded (d : Doc) : Prop := ¬ (ids (expandDoc d)).Nodup
+def danglingExpanded (d : Doc) : Prop := ∃ c ∈ (expandDoc d).comps, ∃ r ∈ c.refs, r ∉ ids (expandDoc d)
+/-- a replicated producer feeds a consumer whose `replicate` count is different -/
+def inconsistentReplicate (d : Doc) : Prop := ∃ c ∈ d.comps, replOk d c = false
+/-- every declared reference is a component of the document (none goes through a loop placeholder) -/
+def refsAreComponents (d : Doc) : Prop := ∀ c ∈ d.comps, ∀ r ∈ c.refs, r ∈ ids d
+
+/-- **expansion_projects** (full): if the identifiers of the expanded document are unique, the `replicate`
+counts are consistent and every reference is a component, then no reference of an expanded component dangles
+and every producer → consumer edge of the expanded graph lies over an edge of the blueprint graph (the graph
+the loader's cycle check runs on). -/
+theorem expansion_projects (d : Doc) (hn : (ids (expandDoc d)).Nodup) (hok : ∀ c ∈ d.comps, replOk d c = true)
+    (href : refsAreComponents d) :
+    (∀ c' ∈ (expandDoc d).comps, ∀ x ∈ c'.refs, x ∈ ids (expandDoc d)) ∧
+    (∀ e ∈ edges (expandDoc d), (bpOf (bpList d) e.1, bpOf (bpList d) e.2) ∈ edges d) := by
+  constructor
+  · intro c' hc' x hx
+    unfold expandDoc at hc'
+    simp only [List.mem_flatMap] at hc'
+    obtain ⟨c, hc, hc'⟩ := hc'
+    obtain ⟨r, _, hm⟩ := ref_projects hc hc' (hok c hc) (href c hc) hx
+    rw [ids_expandDoc]
+    exact List.mem_map.mpr ⟨(x, r), hm, rfl⟩
+  · intro e he
+    unfold edges at he
+    rw [List.mem_flatMap] at he
+    obtain ⟨c', hc', hm⟩ := he
+    rw [List.mem_map] at hm
+    obtain ⟨x, hx, rfl⟩ := hm
+    have hx' : x ∈ c'.refs := (List.mem_filter.mp hx).1
+    have hc'' := hc'
+    unfold expandDoc at hc''
+    simp only [List.mem_flatMap] at hc''
+    obtain ⟨c, hc, hcc⟩ := hc''
+    obtain ⟨r, hr, hm⟩ := ref_projects hc hcc (hok c hc) (href c hc) hx'
+    show (bpOf (bpList d) x, bpOf (bpList d) c'.id) ∈ edges d
+    rw [bpOf_of_mem hn hm, bpOf_of_mem hn (mem_bpList hc hcc)]
+    unfold edges
+    rw [List.mem_flatMap]
+    refine ⟨c, hc, List.mem_map.mpr ⟨r, ?_, rfl⟩⟩
+    rw [List.mem_filter]
+    exact ⟨hr, by simpa using href c hc r hr⟩
+
+private theorem reach_projects {d : Doc} (h : ∀ e ∈ edges (expandDoc d),
+    (bpOf (bpList d) e.1, bpOf (bpList d) e.2) ∈ edges d) {a b : Id} (hr : Reach (edges (expandDoc d)) a b) :
+    Reach (edges d) (bpOf (bpList d) a) (bpOf (bpList d) b) := by
+  induction hr with
+  | edge he => exact .edge (h _ he)
+  | step he _ ih => exact .step (h _ he) ih
+
+/-- **expanded_cycle_lies_over_blueprint_cycle** (full, under the hypotheses of `expansion_projects`): a cycle of
+the expanded graph projects to a cycle of the blueprint graph. -/
+theorem expanded_cycle_lies_over_blueprint_cycle (d : Doc) (hn : (ids (expandDoc d)).Nodup)
+    (hok : ∀ c ∈ d.comps, replOk d c = true) (href : refsAreComponents d) (hc : cyclicExpanded d) : cyclic d := by
+  obtain ⟨v, hv⟩ := hc
+  exact ⟨_, reach_projects (expansion_projects d hn hok href).2 hv⟩
+
+private theorem refsAreComponents_of {tbl sch} {d : Doc} (h : validate tbl sch d = []) (hp : placeholders d = []) :
+    refsAreComponents d := by
+  intro c hc r hr
+  have := (compErrors_nil ((validate_nil h).2.1 c hc)).2.1 r hr
+  unfold refResolves at this
+  rw [hp] at this
+  simpa using this
+
+/-- **accepted_expansion_is_usable_partial**: if the workflow loads then the EXPANDED graph (replicas and
+aggregating components written out, what the workflow graph is built from) has unique identifiers, none of its
+references dangles, a rank function increases strictly along every one of its producer → consumer edges, hence it
+has no cycle, and every expanded component has the options, variables and variable uses of a component of the
+document (whose configuration resolves by `accepted_is_usable`).
+Partial: for documents without loop instances (`placeholders d = []`, no component is named `<k>#<name>`); the
+expansion of DoWhile documents is the subject of C05. -/
+theorem accepted_expansion_is_usable_partial (tbl : List (S × Conv)) (sch : Schema) (d : Doc)
+    (h : validate tbl sch d = []) (hp : placeholders d = []) :
+    (ids (expandDoc d)).Nodup ∧
+    (∀ c' ∈ (expandDoc d).comps, ∀ x ∈ c'.refs, x ∈ ids (expandDoc d)) ∧
+    (∃ rank : Id → Nat, ∀ e ∈ edges (expandDoc d), rank e.1 < rank e.2) ∧
+    (¬ ∃ v, Reach (edges (expandDoc d)) v v) ∧
+    (∀ c' ∈ (expandDoc d).comps, ∃ c ∈ d.comps, c'.stage = c.stage ∧ c'.opts = c.opts ∧ c'.vars = c.vars ∧
+        c'.uses = c.uses) := by
+  obtain ⟨⟨_, _, h3⟩, h4, h5⟩ := validate_nil' h
+  have hn := dupErrorsExpanded_nil _ h5
+  have hok := replErrors_nil h4
+  have href := refsAreComponents_of h hp
+  obtain ⟨hdang, hproj⟩ := expansion_projects d hn hok href
+  obtain ⟨rank, hrank⟩ := acyclicB_rank d h3
+  have hrank' : ∀ e ∈ edges (expandDoc d), rank (bpOf (bpList d) e.1) < rank (bpOf (bpList d) e.2) :=
+    fun e he => hrank _ (hproj e he)
+  refine ⟨hn, hdang, ⟨fun x => rank (bpOf (bpList d) x), hrank'⟩,
+    rank_excludes_cycle (rank := fun x => rank (bpOf (bpList d) x)) hrank', ?_⟩
+  intro c' hc'
+  unfold expandDoc at hc'
+  simp only [List.mem_flatMap] at hc'
+  obtain ⟨c, hc, hcc⟩ := hc'
+  refine ⟨c, hc, ?_⟩
+  unfold expandComp at hcc
+  split at hcc
+  · rw [List.mem_map] at hcc
+    obtain ⟨k, _, rfl⟩ := hcc
+    exact ⟨rfl, rfl, rfl, rfl⟩
+  · split at hcc <;> (rw [List.mem_singleton] at hcc; subst hcc; exact ⟨rfl, rfl, rfl, rfl⟩)
+
+/-- a cycle of the expanded graph — through replicas, through aggregating components, anywhere — is rejected -/
+theorem cyclicExpanded_rejected_partial (tbl sch) (d : Doc) (hp : placeholders d = []) (hf : cyclicExpanded d) :
+    validate tbl sch d ≠ [] :=
+  fun h => (accepted_expansion_is_usable_partial tbl sch d h hp).2.2.2.1 hf
+
+/-- a reference of an expanded component that dangles is rejected -/
+theorem danglingExpanded_rejected_partial (tbl sch) (d : Doc) (hp : placeholders d = [])
+    (hf : danglingExpanded d) : validate tbl sch d ≠ [] := by
+  intro h
+  obtain ⟨c, hc, r, hr, hn⟩ := hf
+  exact hn ((accepted_expansion_is_usable_partial tbl sch d h hp).2.1 c hc r hr)
+
+/-- identifiers that collide after the expansion (a hand-written `prep1` next to a replicated `prep`) are
+rejected (full) -/
+theorem duplicateExpanded_rejected (tbl sch) (d : Doc) (hf : duplicateExpanded d) : validate tbl sch d ≠ [] :=
+  fun h => hf (dupErrorsExpanded_nil _ (validate_nil' h).2.2)
+
+/-- inconsistent `replicate` counts are rejected (full) -/
+theorem inconsistentReplicate_rejected (tbl sch) (d : Doc) (hf : inconsistentReplicate d) :
+    validate tbl sch d ≠ [] := by
+  intro h
+  obtain ⟨c, hc, hb⟩ := hf
+  rw [replErrors_nil (validate_nil' h).2.1 c hc] at hb
+  cases hb
 
 /-! ## options: unknown keys and wrongly typed values -/
 
@@ -430,6 +586,49 @@ example : undefinedVar { good with globals := [] } := by
   intro h; cases h with | mk _ used hl _ => simp [defsOf, c, lookup] at hl
 example : (validate Gen.C11.convTable Gen.C11.componentSchema { good with globals := [] }).isEmpty = false := by
   decide +kernel
+
+/-! ### replication -/
+
+private def cr (name : String) (refs : List Id) (repl : Option Nat) (agg : Bool) : Comp :=
+  { (c 0 name refs [] []) with replicate := repl, aggregate := agg }
+
+/-- `gen` (2 replicas) → `sim` → `red` (aggregating) → `post`, next to hand-written `prep0`/`prep1` -/
+private def mapReduce : Doc :=
+  { comps := [cr "gen" [] (some 2) false, cr "sim" [(0, "gen".toList)] none false,
+              cr "red" [(0, "sim".toList), (0, "prep1".toList)] none true, cr "post" [(0, "red".toList)] none false,
+              cr "prep0" [] none false, cr "prep1" [(0, "prep0".toList)] none false],
+    globals := [] }
+
+example : validate Gen.C11.convTable Gen.C11.componentSchema mapReduce = [] := by decide +kernel
+example : ids (expandDoc mapReduce) =
+    [(0, "gen0".toList), (0, "gen1".toList), (0, "sim0".toList), (0, "sim1".toList), (0, "red".toList),
+     (0, "post".toList), (0, "prep0".toList), (0, "prep1".toList)] := by decide +kernel
+example : edges (expandDoc mapReduce) =
+    [((0, "gen0".toList), (0, "sim0".toList)), ((0, "gen1".toList), (0, "sim1".toList)),
+     ((0, "sim0".toList), (0, "red".toList)), ((0, "sim1".toList), (0, "red".toList)),
+     ((0, "prep1".toList), (0, "red".toList)), ((0, "red".toList), (0, "post".toList)),
+     ((0, "prep0".toList), (0, "prep1".toList))] := by decide +kernel
+example : placeholders mapReduce = [] := by decide
+
+/-- the single fault "`gen` consumes `red`": the cycle passes through the aggregating component -/
+private def mapReduceCycle : Doc :=
+  { mapReduce with comps := cr "gen" [(0, "red".toList)] (some 2) false :: mapReduce.comps.drop 1 }
+
+example : cyclicExpanded mapReduceCycle :=
+  ⟨(0, "red".toList), .step (b := (0, "gen0".toList)) (by decide +kernel)
+    (.step (b := (0, "sim0".toList)) (by decide +kernel) (.edge (by decide +kernel)))⟩
+example : validate Gen.C11.convTable Gen.C11.componentSchema mapReduceCycle = [Err.cycle] := by decide +kernel
+
+/-- a hand-written `gen1` next to the replicated `gen`; a third source with another count feeding `red` -/
+example : duplicateExpanded { mapReduce with comps := mapReduce.comps ++ [cr "gen1" [] none false] } := by
+  unfold duplicateExpanded; decide +kernel
+example : validate Gen.C11.convTable Gen.C11.componentSchema
+    { mapReduce with comps := mapReduce.comps ++ [cr "gen1" [] none false] }
+    = [Err.duplicateAfterReplication (0, "gen1".toList)] := by decide +kernel
+example : inconsistentReplicate
+    { comps := [cr "ga" [] (some 2) false, cr "gb" [] (some 3) false,
+                cr "red" [(0, "ga".toList), (0, "gb".toList)] none true], globals := [] } :=
+  ⟨cr "red" [(0, "ga".toList), (0, "gb".toList)] none true, .tail _ (.tail _ (.head _)), by decide +kernel⟩
 
 private def withOpts (o : Val) : Doc :=
   { comps := [{ (c 0 "src" [] [] []) with opts := o }], globals := [] }
